@@ -481,6 +481,9 @@ func (c *connsPair) isSrcOrDstPeerIPType(checkSrc bool) bool {
 }
 
 func isIngressControllerPeer(peer eval.Peer) bool {
+	if peer.Namespace() != common.IngressPodNamespace { // a real workload which only shares the name
+		return false
+	}
 	return peer.Name() == common.IngressPodName
 }
 
